@@ -41,7 +41,7 @@ def run(ctx):
     for i, bx in enumerate(boxes):
         tasks += solverexp.standard_plan(ctx, VIS, boxes=(bx,), alphabets_fixed=("A013",) if i == 0 else (),
                                          alphabet_pool=("A01", "Am201", "A01e6", "A3210", "A001"),
-                                         n_seeded=1 if not ctx.thorough else (5 if i == 0 else 2),
+                                         n_seeded=1, n_seeded_thorough=None if i == 0 else 2,
                                          rs_thorough=(1.05, 1.5, 2.0, 3.5, 8.0) if i == 0 else (2.0, 3.5),
                                          depths_quick=(7, 6, 5, 4, 4), depths_thorough=(9, 8, 7, 6, 5),
                                          long_runs=(i == 0))
